@@ -96,6 +96,29 @@ Theorem C49_options_parse_exact : forall l,
   end.
 Proof. exact options_parse_exact. Qed.
 
+(* SplitShellStrings, exactness: the fields concatenated are the input minus quote / backslash / white-space
+   characters (nothing invented, nothing reordered); an unterminated quote is an error; without quotes and
+   backslashes it is strings.Fields on ASCII white space; a quoted text without its quote character and
+   without backslashes is exactly one field *)
+Theorem C49_shell_split_preserves : forall s l, shell_split s = SOk l -> dsub s (concat l).
+Proof. exact shell_split_preserves. Qed.
+
+Theorem C49_shell_split_open_quote : forall s, quote_open (final_state s st0) = true -> shell_split s = SErr.
+Proof. exact shell_split_open_quote. Qed.
+
+Theorem C49_shell_split_plain : forall s, plain s = true ->
+  shell_split s = if is_empty (split_ws s []) then SErr else SOk (split_ws s []).
+Proof. exact shell_split_plain. Qed.
+
+Theorem C49_fields_spec : forall s f, forallb (fun c => negb (is_space c)) f = true ->
+  Forall (fun t => t <> [] /\ forallb (fun c => negb (is_space c)) t = true) (split_ws s f)
+  /\ concat (split_ws s f) = f ++ filter (fun c => negb (is_space c)) s.
+Proof. exact split_ws_fields. Qed.
+
+Theorem C49_shell_split_quoted : forall q body, (q = 34 \/ q = 39)%N -> body <> [] -> ~ In q body -> ~ In 92%N body ->
+  shell_split (q :: body ++ [q]) = SOk [body].
+Proof. exact shell_split_quoted. Qed.
+
 Print Assumptions C49_no_parser_panics.
 Print Assumptions C49_parse_duration_total.
 Print Assumptions C49_parse_duration_exact.
@@ -114,3 +137,8 @@ Print Assumptions C49_oracle_sound.
 Print Assumptions C49_model_satisfies_oracle.
 Print Assumptions C49_check_case_zero.
 Print Assumptions C49_options_parse_exact.
+Print Assumptions C49_shell_split_preserves.
+Print Assumptions C49_shell_split_open_quote.
+Print Assumptions C49_shell_split_plain.
+Print Assumptions C49_fields_spec.
+Print Assumptions C49_shell_split_quoted.
